@@ -162,7 +162,9 @@ def w_batcher(item, seed=0, ratios=()):
                 if ratio == 0 and mode == "random":
                     continue
                 for shuffle in (False, True):
-                    check_batcher(t, n, bs, ratio, mode, shuffle, rng=np.random.default_rng([seed, 9, n]))
+                    # progress-dependent behaviour: 12 epochs on one batcher for the extreme and two middle batch sizes
+                    ep = 12 if bs in (1, 3, 7, n, None) else 2
+                    check_batcher(t, n, bs, ratio, mode, shuffle, rng=np.random.default_rng([seed, 9, n]), epochs=ep)
     # generate_batches / subdivide_batches
     from quantem.core.utils.utils import generate_batches, subdivide_batches
 
@@ -289,6 +291,19 @@ def w_invariance(item, seed=0, quick=True):
                 t.case(key=case, nontrivial=b < J, outcome=[round(rec / full[0], 4)])
                 if P.ptycho.num_iters != n0 + 1 or not ev <= TOL:
                     t.fail({"relation": "epoch_loss_equals_full_batch_loss", "part": "loop", "loss_type": lt}, case, f"reconstruct(num_iters=1, batch_size={b}, lr=0) recorded loss {rec:.8g}, full-batch loss {full[0]:.8g} (rel {ev:.3g}), J={J} order={order} {lt}")
+        # progress-dependent behaviour: ONE call running 12 epochs (lr = 0): every recorded epoch loss is the full-batch loss
+        for order in orders_for(J, True)[:2]:
+            for b in divisors:
+                case = {"part": "loop_long", "J": J, "obj_type": obj_type, "modes": modes, "slices": slices, "loss_type": lt, "order": order, "batch_size": b}
+                P.ptycho.rng = OwnedGenerator([order])
+                n0 = P.ptycho.num_iters
+                P.ptycho.reconstruct(num_iters=12, batch_size=b, optimizer_params=ZERO_LR, loss_type=lt)
+                recs = [float(x) for x in P.ptycho.iter_losses[-12:]]
+                ev = max(abs(r - full[0]) / abs(full[0]) for r in recs)
+                t.stat("loop_loss_rel_err", ev)
+                t.case(key=case, nontrivial=b < J, outcome=[round(recs[-1] / full[0], 4)])
+                if P.ptycho.num_iters != n0 + 12 or not ev <= TOL:
+                    t.fail({"relation": "epoch_loss_equals_full_batch_loss", "part": "loop_long", "loss_type": lt}, case, f"reconstruct(num_iters=12, batch_size={b}, lr=0) recorded losses {recs}, full-batch loss {full[0]:.8g} (rel {ev:.3g}), num_iters {n0} -> {P.ptycho.num_iters}, J={J} order={order} {lt}")
         # the same loop WITH a validation split: the epoch loss is the loss over the TRAINING set (batch sizes dividing its
         # size), the recorded validation loss is the loss over the validation set; every order of split and epoch is owned
         if J >= 12:
@@ -403,10 +418,11 @@ def w_reset_histories(item, seed=0, depth=3):
         P0 = first_run()
     fresh = np.array(P0.ptycho.iter_losses, dtype=np.float64).tobytes()
     lf = [float(x) for x in P0.ptycho.iter_losses]
-    for d in range(1, depth + 1):
-        for hist in itertools.product(RESET_OPS, repeat=d):
-            if hist[-1] != "reset" or ("reset" in hist[:-1] and not any(h != "reset" for h in hist)):
-                pass
+    hists = [h for d in range(1, depth + 1) for h in itertools.product(RESET_OPS, repeat=d)]
+    # progress-dependent behaviour: a continued run that crosses ten iterations before the reset
+    hists += [("cont11", "reset"), ("cont11", "cont1", "reset"), ("reset", "cont11", "reset")]
+    for hist in hists:
+        if True:
             if hist[-1] != "reset":
                 continue  # only histories that end in the observed reset run
             case = {"part": "reset_history", "J": J, "obj_type": obj_type, "modes": modes, "batch_size": bs, "ptycho_seed": pseed, "history": list(hist), "val": list(val) if val else None, "seed_spelling": spelling, "first_reset": first_reset}
@@ -419,6 +435,8 @@ def w_reset_histories(item, seed=0, depth=3):
                         P.ptycho.reconstruct(num_iters=1, batch_size=bs)
                     elif op == "cont2":
                         P.ptycho.reconstruct(num_iters=2, batch_size=bs)
+                    elif op == "cont11":
+                        P.ptycho.reconstruct(num_iters=11, batch_size=bs)
                     else:
                         P.ptycho.reconstruct(num_iters=iters, reset=True, batch_size=bs, optimizer_params=copy.deepcopy(ADAM))
                 got = np.array(P.ptycho.iter_losses, dtype=np.float64)
